@@ -921,8 +921,13 @@ pub const N_SUBJ: usize = 5;
 pub const VARS: [&str; 6] = ["a", "b", "c", "d", "f", "h"];
 pub const GRAPHS: [&str; 5] = ["http://e/g0", "http://e/g1", "http://e/g2", "http://e/gE", "http://e/gN"];
 
+/// Subject names: `s1` is a prefix of `s12`, and together with the numeric values 3 / 23 two different
+/// (subject, value) tuples have the same concatenation — keys built by gluing values together show up as wrong answers.
+pub fn subj_name(i: usize) -> &'static str {
+    ["s0", "s1", "s2", "s3", "s12"][i % N_SUBJ]
+}
 fn subj(i: usize) -> Tm {
-    Tm::Iri(format!("{NS}s{}", i % N_SUBJ))
+    Tm::Iri(format!("{NS}{}", subj_name(i)))
 }
 
 #[derive(Clone, Copy, Debug, PartialEq)]
@@ -960,7 +965,7 @@ pub fn obj_for(k: PredKind, sel: usize) -> Tm {
             7 => Tm::Lit("x".into()),
             _ => Tm::Lit("y z".into()),
         },
-        PredKind::Val => Tm::Num((sel % 7) as i64),
+        PredKind::Val => Tm::Num([0, 1, 2, 3, 23, 5, 6][sel % 7]),
         PredKind::Tag => Tm::Lit(["red", "green", "blue", "1k", "red", "10", "green"][sel % 7].to_string()),
         PredKind::Type => Tm::Iri(format!("{NS}C{}", sel % 2)),
     }
@@ -1596,13 +1601,21 @@ impl<'d> Builder<'d> {
         let numeric_certain: Vec<String> = vi.numeric.iter().cloned().collect();
         let mut group_by = vec![];
         let proj = if r.proj_mode >= 8 && !numeric_certain.is_empty() {
-            // aggregate projection: GROUP BY 0–1 certainly-bound variables
+            // aggregate projection: GROUP BY 0–2 certainly-bound variables
             let mut items = vec![];
             let certain: Vec<String> = vi.certain.iter().cloned().collect();
             if r.proj_sel[0] % 3 != 0 && !certain.is_empty() {
                 let g = certain[pick_idx(r.proj_sel[0], certain.len())].clone();
                 group_by.push(g.clone());
                 items.push(ProjItem::Var(g));
+                // a second grouping variable (composite group keys) for about half of the grouped queries
+                if r.proj_sel.len() >= 2 && r.proj_sel[1] % 2 == 0 && certain.len() >= 2 {
+                    let g2 = certain[pick_idx(r.proj_sel[1], certain.len())].clone();
+                    if !group_by.contains(&g2) {
+                        group_by.push(g2.clone());
+                        items.push(ProjItem::Var(g2));
+                    }
+                }
             }
             for (k, s) in &r.agg {
                 let kind = [AggKind::Sum, AggKind::Min, AggKind::Max, AggKind::Avg][*k as usize % 4];
@@ -1706,6 +1719,9 @@ pub fn features(q: &Select) -> Vec<&'static str> {
         }
         if q.has_agg() {
             f.insert(if nested { "sub-agg" } else { "agg" });
+        }
+        if q.group_by.len() >= 2 {
+            f.insert("group-by-2");
         }
         if !q.order.is_empty() {
             f.insert(if nested { "sub-order" } else { "order" });
